@@ -22,7 +22,7 @@ PLAN = {
     "quick": [(S_PATH, "AmpPath", "Gen_enc_quick.cfg", "pathenc", 1000), (S_PATH, "AmpPath", "Gen_dec_quick.cfg", "pathdec", 1000),
               (S_URL, "CacheURL", "Gen_prefix_quick.cfg", "prefix", 1000), (S_URL, "CacheURL", "Gen_url.cfg", "url", 5000)],
     "thorough": [(S_PATH, "AmpPath", "Gen_enc.cfg", "pathenc", 5000), (S_PATH, "AmpPath", "Gen_dec.cfg", "pathdec", 5000),
-                 (S_URL, "CacheURL", "Gen_prefix.cfg", "prefix", 5000), (S_URL, "CacheURL", "Gen_url.cfg", "url", 5000)],
+                 (S_URL, "CacheURL", "Gen_prefix.cfg", "prefix", 30000), (S_URL, "CacheURL", "Gen_url.cfg", "url", 5000)],
 }
 RV_CFG = {"quick": ("Gen_quick.cfg", 5000), "thorough": ("Gen_thorough.cfg", 20000)}
 
@@ -59,8 +59,11 @@ def run(chk, args):
         k = "rv:%s/%s" % (c["cs"]["method"], c["expect"]["res"])
         classes[k] = classes.get(k, 0) + 1
     chk.sample(cases[len(cases) // 3])
-    s = drive_inpkg(chk, cases)
-    chk.note("Rendezvous: %d exchanges through the real client code" % s["cases"])
+    n = 0
+    for rnd in range(1 if chk.tier == "quick" else 3):     # further rounds: other payload bytes and body reader scripts
+        s = drive_inpkg(chk, cases, seed=chk.seed + 7919 * rnd)
+        n += s["cases"]
+    chk.note("Rendezvous: %d exchanges through the real client code" % n)
     for need in ("rv:http/data", "rv:http/error", "rv:amp/data", "rv:amp/error", "rv:amp/any"):
         if not classes.get(need):
             chk.fail("vacuous: no case of class %s" % need)
@@ -91,14 +94,14 @@ def generate(chk, specdir, module, cfg, least):
     return r.prints
 
 
-def drive_inpkg(chk, cases, max_report=8):
+def drive_inpkg(chk, cases, max_report=8, base=0, seed=None):
     d = vlib.scratch("c11")
     inp, outp = os.path.join(d, "rv.in.ndjson"), os.path.join(d, "rv.out.ndjson")
     if os.path.exists(outp):
         os.remove(outp)
     vlib.write_ndjson(inp, cases)
     r = vlib.go_test_inpkg("client/lib", [INPKG], "^TestVerifC11", linkflag=True, timeout=900,
-                           env={"VERIF_C11_CASES": inp, "VERIF_C11_OUT": outp, "VERIF_SEED": str(chk.seed)})
+                           env={"VERIF_C11_CASES": inp, "VERIF_C11_OUT": outp, "VERIF_SEED": str(chk.seed if seed is None else seed), "VERIF_IDX_BASE": str(base)})
     if r.timed_out or r.rc != 0 or not os.path.exists(outp):
         raise vlib.Inconclusive("in-package rendezvous test failed (rc=%s timeout=%s):\n%s" % (r.rc, r.timed_out, r.out[-3000:]))
     summary, reported = None, 0
@@ -109,7 +112,8 @@ def drive_inpkg(chk, cases, max_report=8):
         if str(res.get("sig", "")).startswith("harness/"):
             raise vlib.Inconclusive("rendezvous harness: %s" % res.get("detail", "")[:1500])
         if reported < max_report:
-            if chk.violation(res.get("sig", "unknown"), res.get("detail", ""), {"driver": "inpkg:client_lib", "args": ["rendezvous"], "case": res.get("case"), "idx": res.get("idx")}):
+            if chk.violation(res.get("sig", "unknown"), res.get("detail", ""), {"driver": "inpkg:client_lib", "args": ["rendezvous"], "case": res.get("case"), "idx": res.get("idx"),
+                                                                                       "seed": chk.seed if seed is None else seed}):
                 reported += 1
     if summary is None:
         raise vlib.Inconclusive("in-package rendezvous test wrote no summary:\n%s" % r.out[-2000:])
@@ -137,11 +141,13 @@ def slim(case):
 def replay(chk, drv, path):
     import json
     with open(path) as fh:
-        rp = json.load(fh)["replay"]
+        doc = json.load(fh)
+    rp, seed = doc["replay"], doc.get("seed", chk.seed)     # the seed of the run that found it
     if rp.get("driver") == "inpkg:client_lib":
-        drive_inpkg(chk, [rp["case"]])
+        drive_inpkg(chk, [rp["case"]], base=rp.get("idx") or 0, seed=rp.get("seed", seed))
     else:
-        vlib.drive_cases(chk, drv, [rp["args"][0]], [rp["case"]], [chk.seed], tag="replay")
+        env = dict(os.environ, VERIF_IDX_BASE=str(rp.get("idx") or 0))
+        vlib.drive_cases(chk, drv, [rp["args"][0]], [rp["case"]], [seed], tag="replay", env=env)
 
 
 MANIFEST = {
